@@ -2250,4 +2250,92 @@ example :
     consumeRun ((Srv.new false).writeAsync 0 0 [97] |>.writeAsync 1 1 [98])
       [.cpoll, .complete 1, .cpoll, .complete 0, .cpoll] = [[(0, [97]), (1, [98])]] := by decide
 
+/-! ## I. carriers created after hydration read nothing that was transferred -/
+
+/-- the client's counter after it has run a program -/
+def cliAfter : CliCtr → List IdOp → CliCtr
+  | c, [] => c
+  | c, .create :: ops => cliAfter c.nextId.2 ops
+  | c, .setHyd b :: ops => cliAfter { c with hyd := b } ops
+
+theorem cliAfter_id (ops : List IdOp) :
+    ∀ c : CliCtr, c.id + countCreates ops < usizeMod → (cliAfter c ops).id = c.id + countCreates ops := by
+  induction ops with
+  | nil => intro c _; simp [cliAfter, countCreates]
+  | cons op ops ih =>
+    intro c h
+    cases op with
+    | create =>
+      simp only [countCreates, usizeMod] at h
+      have hid : c.nextId.2.id = c.id + 1 := by
+        simp only [CliCtr.nextId, usizeMod]; omega
+      have := ih c.nextId.2 (by rw [hid]; simp only [usizeMod]; omega)
+      simp only [cliAfter, countCreates, this, hid]; omega
+    | setHyd b =>
+      simp only [countCreates] at h
+      simpa [cliAfter, countCreates] using ih { c with hyd := b } h
+
+theorem cliRun_bounds (ops : List IdOp) :
+    ∀ c : CliCtr, c.id + countCreates ops < usizeMod →
+      ∀ x ∈ cliRun c ops, c.id ≤ x ∧ x < c.id + countCreates ops := by
+  induction ops with
+  | nil => intro c _ x hx; simp [cliRun] at hx
+  | cons op ops ih =>
+    intro c h x hx
+    cases op with
+    | create =>
+      simp only [countCreates, usizeMod] at h
+      have hid : c.nextId.2.id = c.id + 1 := by
+        simp only [CliCtr.nextId, usizeMod]; omega
+      simp only [cliRun, List.mem_cons] at hx
+      rcases hx with hx | hx
+      · subst hx; simp only [CliCtr.nextId, countCreates]; omega
+      · have := ih c.nextId.2 (by rw [hid]; simp only [usizeMod]; omega) x hx
+        rw [hid] at this
+        simp only [countCreates]; omega
+    | setHyd b =>
+      simp only [countCreates] at h
+      simp only [cliRun] at hx
+      simpa [countCreates] using ih { c with hyd := b } h x hx
+
+/-- **post-hydration carriers read nothing**: let the client hydrate a page (it runs the hydrating
+part of any creation program, either constructor) and afterwards create any further carriers
+(`later`). Whatever data is readable on the page — any map whose keys are ids the server handed out
+while the flag was on — none of it is stored under an id drawn after hydration: such a carrier
+starts empty and has to run its own loader. (No wrap-around: fewer than 2^64 creations in total.) -/
+theorem C12_post_hydration_reads_nothing (ops later : List IdOp) (islands : Bool)
+    (map : List (Nat × Str))
+    (hmap : ∀ kv ∈ map, kv.1 ∈ srvHydIds (if islands then SrvCtr.newIslands else SrvCtr.new) ops)
+    (h : countCreates (hydratingPart (if islands then SrvCtr.newIslands else SrvCtr.new).hyd ops)
+          + countCreates later < usizeMod) :
+    ∀ id ∈ cliRun (cliAfter (if islands then CliCtr.newIslands else CliCtr.new)
+                      (hydratingPart (if islands then SrvCtr.newIslands else SrvCtr.new).hyd ops)) later,
+      map.find? (fun kv => kv.1 == id) = none := by
+  intro id hid
+  let hp := hydratingPart (if islands then SrvCtr.newIslands else SrvCtr.new).hyd ops
+  let c0 : CliCtr := if islands then CliCtr.newIslands else CliCtr.new
+  have hc0 : c0.id = 0 := by cases islands <;> rfl
+  have hcnt : countCreates hp
+      = countCreates (hydratingPart (if islands then SrvCtr.newIslands else SrvCtr.new).hyd ops) := rfl
+  have hafter : (cliAfter c0 hp).id = countCreates hp := by
+    have := cliAfter_id hp c0 (by rw [hc0]; omega)
+    rw [this, hc0]; omega
+  have hlate := cliRun_bounds later (cliAfter c0 hp) (by rw [hafter]; exact h) id hid
+  rw [hafter] at hlate
+  apply List.find?_eq_none.mpr
+  intro kv hkv
+  have hk := hmap kv hkv
+  rw [C12_ids_align ops islands] at hk
+  have hb := cliRun_bounds hp c0 (by rw [hc0]; omega) kv.1 hk
+  rw [hc0] at hb
+  have : kv.1 ≠ id := by omega
+  simpa using this
+
+/-- non-vacuity: a page with two hydrating creations (ids 0, 1), data under both; the two carriers
+created afterwards draw ids 2 and 3 -/
+example :
+    cliRun (cliAfter CliCtr.new (hydratingPart true [.create, .setHyd false, .create, .setHyd true, .create]))
+      [.create, .create] = [2, 3] ∧
+    srvHydIds SrvCtr.new [.create, .setHyd false, .create, .setHyd true, .create] = [0, 1] := by decide
+
 end Leptos.Transfer
